@@ -42,7 +42,7 @@ REQUIRED_COUNTERS = [
     "c16.spmatrix.duplicates", "c16.spmatrix.explicit-zeros", "c16.spmatrix.empty-pattern", "c16.spmatrix.size-argument",
     "c16.index.list-neg", "c16.index.imat-neg", "c16.index.slice", "c16.index.int", "c16.index.negint",
     "c16.operands.sparse-sparse", "c16.operands.sparse-dense", "c16.operands.dense-sparse", "c16.operands.sparse-number",
-    "c16.operands.sparse-1x1", "c16.spdiag.sparse-row-vector", "c16.partial.True", "c16.base.gemm.all-sparse-complex-partial-one-conjugate", "c16.tc.d", "c16.tc.z", "c16.ccs-checks",
+    "c16.operands.sparse-1x1", "c16.index-beyond-int64", "c16.spdiag.sparse-row-vector", "c16.partial.True", "c16.base.gemm.all-sparse-complex-partial-one-conjugate", "c16.tc.d", "c16.tc.z", "c16.ccs-checks",
     "c16.shape.zero-dim", "c16.pattern-unchanged-checks",
 ]
 WATCHDOG = {"quick": 600, "thorough": 3000}
@@ -531,6 +531,23 @@ def run(ctx):
                 src = "(%d, %d, 1)" % (r.m, r.n)
             do("%s.size = %s" % (p, src), "size:" + kind)
 
+        def g_hugeindex():
+            """integer indices beyond the C long range on a sparse matrix: refused, and the matrix is left alone"""
+            p = pick(True)
+            if p is None:
+                return
+            r = ls.ref[p]
+            if r.m * r.n == 0:
+                return
+            big = rng.choice([2**70, -2**70, 2**63, 2**64 + 1])
+            form = rng.choice(["get1", "get2r", "get2c", "set1", "set2r", "set2c", "set1", "set2r"])
+            ctx.count("c16.index-beyond-int64")
+            idx = {"1": "%d" % big, "2r": "%d, %d" % (big, rng.randrange(r.n)), "2c": "%d, %d" % (rng.randrange(r.m), big)}[form[3:]]
+            if form.startswith("get"):
+                do("_ = %s[%s]" % (p, idx), "getitem:index-beyond-int64", "_")
+            else:
+                do("%s[%s] = %r" % (p, idx, rnum(rng, "d")), "setitem:index-beyond-int64")
+
         def g_query():
             p = pick(True) or pick()
             r = ls.ref[p]
@@ -724,7 +741,7 @@ def run(ctx):
             ctx.count("c16.base.symv.%s.%s" % (ka, uplo))
             do("symv(%s, %s, %s%s)" % (A, x, y, args), "base.symv:%s" % ("sparse-A" if ka == "s" else "dense-A"))
 
-        GENS = [(g_spmatrix, 10), (g_sparse, 5), (g_spdiag, 3), (g_dense, 2), (g_alias, 3),
+        GENS = [(g_hugeindex, 1.0), (g_spmatrix, 10), (g_sparse, 5), (g_spdiag, 3), (g_dense, 2), (g_alias, 3),
                 (lambda: g_getitem(False), 7), (lambda: g_getitem(True), 8), (lambda: g_setitem(False), 8),
                 (lambda: g_setitem(True), 10), (g_binop, 14), (g_inplace, 9), (g_unary, 6), (g_vassign, 4), (g_attr, 2),
                 (g_size, 3), (g_query, 5), (g_elementwise, 5), (g_axpy, 3), (g_gemm, 4), (g_syrk, 3), (g_gemv, 4), (g_symv, 2)]
